@@ -15,10 +15,9 @@ HERE = os.path.dirname(os.path.dirname(os.path.abspath(__file__)))
 
 # (id, property, file, old, new, expected obligation substring)
 EDITS = [
- ('wait-elif', 'C15', 'task.py',
-  "        elif not isinstance(state, list):\n            states = [state]",
-  "        if not isinstance(state, list):\n            states = [state]",
-  'default-is-final'),
+ ('wait-task-final-break', 'C15', 'task.py',
+  "            if self.state in rps.FINAL:\n                break\n",
+  "", 'exit-when'),
  ('wait-final-break', 'C15', 'pilot.py',
   "            if self.state in rps.FINAL:\n                break\n",
   "", 'exit-when'),
